@@ -65,6 +65,22 @@ impl<'a, S: UtxoStore> InputSelector<'a, S> {
         }
     }
 
+    /// The search space is padded with loosely matching UTxOs (the union of the
+    /// per-constraint matches) so that multi-UTxO inputs can be completed. The
+    /// `from` address and the `ref` list are hard constraints though: whatever
+    /// gets selected must satisfy them.
+    fn satisfies_hard_constraints(utxo: &Utxo, criteria: &CanonicalQuery) -> bool {
+        let address_ok = criteria
+            .address
+            .as_ref()
+            .map(|address| &utxo.address == address)
+            .unwrap_or(true);
+
+        let ref_ok = criteria.refs.is_empty() || criteria.refs.contains(&utxo.r#ref);
+
+        address_ok && ref_ok
+    }
+
     fn pick_from_set(utxos: UtxoSet, criteria: &CanonicalQuery) -> UtxoSet {
         let target = criteria
             .min_amount
@@ -98,6 +114,7 @@ impl<'a, S: UtxoStore> InputSelector<'a, S> {
         // abstract it away. Maybe as a different call in the UtxoStore trait.
         let utxos = utxos
             .into_iter()
+            .filter(|x| Self::satisfies_hard_constraints(x, criteria))
             .filter(|x| x.assets.is_only_naked())
             .collect();
 
@@ -121,6 +138,11 @@ impl<'a, S: UtxoStore> InputSelector<'a, S> {
             .collect();
 
         let utxos = self.store.fetch_utxos(refs).await?;
+
+        let utxos = utxos
+            .into_iter()
+            .filter(|x| Self::satisfies_hard_constraints(x, criteria))
+            .collect();
 
         let matched = Self::pick_from_set(utxos, criteria);
 
